@@ -1,5 +1,5 @@
 """Theorems of lean/TLX/Props/C01Pipeline.lean that the C01 / C03 / C08 / C13 checks require (composed TLS model)."""
-MODULES = ["TLX.Props.C01Pipeline", "TLX.Props.C01Capstone"]
+MODULES = ["TLX.Props.C01Pipeline", "TLX.Props.C01Capstone", "TLX.Props.C01Capstone2"]
 _NS = "TLX.Props.C01Pipeline."
 THEOREMS = [_NS + n for n in [
     # A. Session ∘ RecordLayer
@@ -30,4 +30,20 @@ THEOREMS = [_NS + n for n in [
     "Ex.tls12_connection_exact_counterexample",
     "Ex.tls12_instance",
     "Ex.tls13_instance",
+]] + ["TLX.Props.C01Capstone." + n for n in [
+    # capstones, second part (module TLX.Props.C01Capstone2, same namespace)
+    "tls12_connection_exact_of_release",
+    "tls13_connection_exact_of_release",
+    "tls12_connection_exact_displaced",
+    "tls13_connection_exact_displaced",
+    "causal12_of_packet_order",
+    "causal13_of_packet_order",
+    "tls13_fragmented_partial",
+    "Ex2.tls13_fragmented_counterexample",
+    "Ex2.tls13_fragmented_instance",
+    "Ex2.tls12_displaced_instance",
+    "tls12_connection_meta_exact",
+    "tls13_connection_meta_exact",
+    "Ex2.tls12_meta_instance",
+    "Ex2.tls13_meta_instance",
 ]]
